@@ -712,8 +712,18 @@ func (ts *TermStore) StrConcat(as ...*Term) *Term {
 	case 1:
 		return res[0]
 	}
-	if r, ok := ts.liftArgs(res, func(c []*Term) *Term { return ts.StrConcat(c...) }); ok {
-		return r
+	// sequences of single characters stay structural (units); only other finite-domain pieces are lifted
+	allUnits := true
+	for _, r := range res {
+		if _, ok := ts.units(r); !ok {
+			allUnits = false
+			break
+		}
+	}
+	if !allUnits {
+		if r, ok := ts.liftArgs(res, func(c []*Term) *Term { return ts.StrConcat(c...) }); ok {
+			return r
+		}
 	}
 	return ts.mk(OStrConcat, StringSort, res...)
 }
